@@ -129,7 +129,8 @@ def polled_run(job, kill=None, after=None):
         env = dict(os.environ, PYTHONPATH='', TMPDIR=tmpd, VERIF_CMDLOG=os.path.join(d, 'cmdlog'), PYTHONHASHSEED='0')
         env.update(job.get('env') or {})
         p = subprocess.Popen([common.PY, e2e.LAUNCHER, logdir] + job['opts'] + [inf, outf] + job['cmd'], cwd=d, env=env,
-                             stdout=subprocess.PIPE, stderr=subprocess.PIPE, text=True, start_new_session=True)
+                             stdout=subprocess.PIPE, stderr=subprocess.PIPE, text=True, start_new_session=True,
+                             preexec_fn=lambda: signal.signal(signal.SIGINT, signal.SIG_DFL))
         snaps = {}
         stop = threading.Event()
 
